@@ -212,7 +212,12 @@ func famC02(rn *Runner) {
 				default:
 					base = g.Path(1, 3)
 				}
-				e = &EFilter{E: base, Steps: g.Steps(1, 1+rn.R.Intn(2), 5)}
+				ff := &EFilter{E: base, Steps: g.Steps(1, 1+rn.R.Intn(2), 5)}
+				if rn.R.Chance(1, 3) {
+					// (E)//step: the abbreviated continuation
+					ff.Steps = append([]*Stp{{Axis: "descendant-or-self", Test: NodeTest{Kind: "node"}, Abbrev: true}}, ff.Steps...)
+				}
+				e = ff
 			default:
 				fam = "reverse-axis-predicates"
 				ax := pick(rn.R, []string{"ancestor", "ancestor-or-self", "preceding", "preceding-sibling"})
